@@ -287,6 +287,9 @@ def random_schema(rnd, tries=60, **kw):
         if not ref.well_founded():
             stats["not_well_founded"] += 1
             continue
+        if not ref.text_merge_safe():
+            stats["counts_text_nodes"] = stats.get("counts_text_nodes", 0) + 1
+            continue
         if ref.strong_dead_ends:
             stats["dead_end_behind_loop"] = stats.get("dead_end_behind_loop", 0) + 1
             continue
